@@ -71,6 +71,7 @@ func (m *Base) Decode(vector string) (*Base, error) {
 }
 
 func (m *Base) decodeOne(str string) error {
+	verifTrace("v2.base.decodeOne", m, str)
 	elm := strings.Split(str, ":")
 	if len(elm) != 2 || len(elm[0]) == 0 || len(elm[1]) == 0 {
 		return errs.Wrap(cvsserr.ErrInvalidVector, errs.WithContext("metric", str))
